@@ -49,10 +49,10 @@ def parseBits16 (s : String) : Option (Bool × Bool × Bool) :=
   | _ => none
 
 /-- the oracle as a function of the key: the three bits belong to the three secret variables of the source -/
-def oracle16 (b : Bool × Bool × Bool) : Secret → Bool := fun k =>
-  (k == Gen.Token.jwtSecret && b.1) || (k == Gen.Token.refreshJwtSecret && b.2.1) || (k == Gen.Token.emailJwtSecret && b.2.2)
+def oracle16 (secs : Bytes × Bytes × Bytes) (b : Bool × Bool × Bool) : Secret → Bool := fun k =>
+  (k == secs.1 && b.1) || (k == secs.2.1 && b.2.1) || (k == secs.2.2 && b.2.2)
 
-def parseRaw16 (w : String) : Option Raw :=
+def parseRaw16 (secs : Bytes × Bytes × Bytes) (w : String) : Option Raw :=
   let body := (w.splitOn "@").headD ""
   if body = "E" then some .empty
   else if body = "M" then some .malformed
@@ -68,7 +68,7 @@ def parseRaw16 (w : String) : Option Raw :=
         let eml ← parseClaim16 eml
         let iat ← parseClaim16 iat
         let nbf ← parseClaim16 nbf
-        pure (.tok { alg := a, hmacOK := oracle16 b, cli, sub, exp, typ, ctx, eml, iat, nbf })
+        pure (.tok { alg := a, hmacOK := oracle16 secs b, cli, sub, exp, typ, ctx, eml, iat, nbf })
     | _ => none
 
 def showTime16 (e : Int) : String :=
@@ -96,8 +96,8 @@ def showAlg16 : Alg → String
 
 def bit16 (b : Bool) : String := if b then "1" else "0"
 
-def showToken16 (t : Token) : String :=
-  let sig := bit16 (t.hmacOK Gen.Token.jwtSecret) ++ bit16 (t.hmacOK Gen.Token.refreshJwtSecret) ++ bit16 (t.hmacOK Gen.Token.emailJwtSecret)
+def showToken16 (secs : Bytes × Bytes × Bytes) (t : Token) : String :=
+  let sig := bit16 (t.hmacOK secs.1) ++ bit16 (t.hmacOK secs.2.1) ++ bit16 (t.hmacOK secs.2.2)
   s!"T,{showAlg16 t.alg},{sig},{showClaim16 t.cli},{showClaim16 t.sub},{showClaim16 t.exp},{showClaim16 t.typ},{showClaim16 t.ctx},{showClaim16 t.eml},{showClaim16 t.iat},{showClaim16 t.nbf}"
 
 /-- the ideal signature: what is signed with `K` verifies under exactly the keys equal to `K` -/
@@ -113,16 +113,53 @@ def httpErr16 : Err → String
   | .invalidUser => "403 invalid-user"
   | .invalidRemoteAddr => "400 invalid-remote-addr"
 
-def showCfg16 : String :=
-  let c := srcCfg
-  s!"jwt={toHex Gen.Token.jwtSecret} refresh={toHex Gen.Token.refreshJwtSecret} email={toHex Gen.Token.emailJwtSecret} " ++
-  s!"ttl={Gen.Token.jwtTokenExpireTS},{Gen.Token.refreshJwtTokenExpireTS},{Gen.Token.emailJwtTokenExpireTS} eps={c.eps} " ++
+/-- driver state: the variables of package api (initially the source defaults: the harness's first pass does
+not call InitConfig), the configuration the functions see, the three secret variables -/
+structure St16 where
+  env : Env
+  cfg : Cfg
+  secs : Bytes × Bytes × Bytes
+
+def var16 (env : Env) (n : String) : Bytes := (lookupVar env n).getD []
+
+def mkSt16 (env : Env) : Option St16 :=
+  (cfgOfEnv env).map fun c => { env := env, cfg := c, secs := (var16 env "JWT_SECRET", var16 env "REFRESH_JWT_SECRET", var16 env "EMAIL_JWT_SECRET") }
+
+def init16 : St16 :=
+  { env := Gen.Token.initialVars, cfg := srcCfg,
+    secs := (Gen.Token.jwtSecret, Gen.Token.refreshJwtSecret, Gen.Token.emailJwtSecret) }
+
+def showCfg16 (st : St16) : String :=
+  let c := st.cfg
+  s!"jwt={toHex st.secs.1} refresh={toHex st.secs.2.1} email={toHex st.secs.2.2} " ++
+  s!"ttl={decToInt (var16 st.env "JWT_TOKEN_EXPIRE_TS")},{decToInt (var16 st.env "REFRESH_JWT_TOKEN_EXPIRE_TS")},{decToInt (var16 st.env "EMAIL_JWT_TOKEN_EXPIRE_TS")} eps={c.eps} " ++
   s!"guest={toHex c.guest} typ={toHex c.refreshType} ctx={toHex Gen.Token.contextChangeEmail},{toHex Gen.Token.contextSetIDEmail}"
 
-def stepC16 (_ : Unit) (ws : List String) : Unit × String :=
-  let c := srcCfg
+def stepC16 (st : St16) (ws : List String) : St16 × String :=
+  match ws with
+  | ["useini", path] =>
+      -- InitConfig() with one of the shipped ini files (or `none`: no [go-pttbbs:api] entry at all)
+      let ini? : Option Env :=
+        if path = "none" then some []
+        else if path.startsWith "inline:" then
+          -- an ini file written by the harness: inline:<key>=<hex>;<key>=<hex>…
+          ((path.drop 7).toString.splitOn ";").mapM fun kv =>
+            match kv.splitOn "=" with
+            | [k, h] => (parseHex h).map fun v => (k, v)
+            | _ => none
+        else (Gen.Token.iniFiles.find? (·.1 == path)).map (·.2)
+      match ini? with
+      | none => (st, "bad-op")
+      | some ini =>
+        match (effEnv ini).bind mkSt16 with
+        | none => (st, "bad-config")
+        | some st' => (st', showCfg16 st' ++ s!" distinct={pairwiseDistinct st'.secs}")
+  | _ =>
+  let c := st.cfg
+  let parseRaw16 := parseRaw16 st.secs
+  let showToken16 := showToken16 st.secs
   let out := match ws with
-    | ["config"] => showCfg16
+    | ["config"] => showCfg16 st
     | ["vjwt", r, chk] =>
         match parseRaw16 r, flag16 chk with
         | some raw, some b => (match verifyJwt c T0 raw b with
@@ -199,6 +236,6 @@ def stepC16 (_ : Unit) (ws : List String) : Unit × String :=
             | none => "invalid")
         | _, _, _, _ => "bad-op"
     | _ => "bad-op"
-  ((), out)
+  (st, out)
 
-def main : IO Unit := runHandler { init := (), step := stepC16 }
+def main : IO Unit := runHandler { init := init16, step := stepC16 }
